@@ -147,7 +147,7 @@ def run_scenario(run: Run, scen: dict, rng: random.Random):
 
 
 def check(run: Run, tier: str, seed: int):
-    n = 60 if tier == "quick" else 600
+    n = 120 if tier == "quick" else 600
     for i in range(n):
         cls, opts, semirings = CLASSES[i % len(CLASSES)]
         srng = random.Random(f"C19-{seed}-{i}")
